@@ -20,7 +20,7 @@ def run_calls(run, params, batch=4000, sig_fn=sig_call, nontrivial=lambda rec: T
         run.note_case(json.dumps(p, sort_keys=True, default=str), nontrivial(rec))
     for k in range(0, len(recs), batch):
         chunk = recs[k : k + batch]
-        payload = {"calls": chunk, "expect_judged": len(chunk)}
+        payload = {"calls": [{k2: v for k2, v in c.items() if k2 != "re"} for c in chunk], "expect_judged": len(chunk)}
         run.validate("Trace_Calls", payload, chunk, sig_fn=sig_fn)
     run.traces += len(recs)
     for r in recs[:: max(1, len(recs) // 3)][:3]:
